@@ -106,6 +106,11 @@ def background():
                         patterns=[CNT(Bb, n)]))
     ax.append(z3.ForAll([Bb, n], z3.Implies(z3.And(n >= 0, z3.ForAll([i], z3.Implies(inr, Bb[i]))), CNT(Bb, n) == n),
                         patterns=[CNT(Bb, n)]))
+    # L4 (L4_sum_prefix_mono): prefix sums of a non-negative array are non-decreasing
+    j2 = z3.Int('j!bg')
+    ax.append(z3.ForAll([A, n, j2], z3.Implies(z3.And(0 <= n, n <= j2, z3.ForAll([i], z3.Implies(z3.And(0 <= i, i < j2), A[i] >= 0))),
+                                               SUM(A, n) <= SUM(A, j2)),
+                        patterns=[z3.MultiPattern(SUM(A, n), SUM(A, j2))]))
     # L4: sums of pointwise equal arrays are equal (congruence of SUM / ISUM / CNT)
     A2 = z3.Const('A2!bg', RArr)
     ax.append(z3.ForAll([A, A2, n], z3.Implies(z3.ForAll([i], z3.Implies(inr, A[i] == A2[i])), SUM(A, n) == SUM(A2, n)),
